@@ -181,6 +181,27 @@ ADDENDA = {
     "C20": ("; lock hygiene (every return releases, deferred releases match, no re-entry through callees) over ircserver and api; ownership of cached batches; no whole-value copy of a session outside the IRC server", " Also decided: lock hygiene of packages ircserver and api, and that fields outside the lock table (including those of cached batches) are written only under a write lock."),
 }
 
+# rules added with seed round 10 ("maintenance at a distance")
+ADDENDA10 = {
+    "C02": ("; no-retry rule after a failed write; every-record rule for the restore loop", " Also decided: a failed write to the store is not retried or papered over, and the restore loop applies every record it read."),
+    "C05": ("; no-own-errors rule for the proposal wait; header-before-body rule of the client-facing handlers; fresh-proposal rule; fatal error sites stay fatal", " Also decided: the proposal wait fails only with the error raft or the state machine gave it; a client-facing handler writes no body before the status; every proposal is a message built for this request."),
+    "C07": ("; single-recovery-point rule; reader/writer agreement for the marked entry (decoder chosen by the record, not by a store setting)", " Also decided: recover() is called by applyProto's deferred function only, and GetLog decodes the form StoreLogProto writes whatever the store's settings are."),
+    "C08": ("; no-own-errors rule for Add / Delete", " Also decided: Add and Delete fail only with a database error."),
+    "C09": ("; error-identity rule (sentinel errors are handed on unwrapped where callers compare them)", " Also decided: the errors raft compares by identity (ErrLogNotFound, 'not found') arrive unwrapped."),
+    "C11": ("; route tables followed; stored-as-given and non-empty rules for the network password", " Also decided: the admin gate compares with the password as it was configured, and the API is constructed only behind a test that it is not empty."),
+    "C16": ("; no-own-errors rule for the configuration parser", " Also decided: config.FromString refuses a text only when the TOML decoder does, so a replica cannot refuse what the API accepted."),
+    "C17": ("; error-identity rule for the session look-up errors", " Also decided: 'no such session' and 'not yet seen' arrive unwrapped where they are compared."),
+    "C18": ("; decoder-assignment rule (every field a decoder sets is set from the record's field of that name); JSON key agreement", " Also decided: a decoder fills each field from the record field the encoder wrote it to, and JSON keys of writer and reader agree."),
+    "C19": ("; flag-default rule for the bypass; measurement status held in a local followed", " Also decided: -disable_timesafeguard is a flag.Bool with the constant default false that nothing in the program sets."),
+    "C20": ("; no-write rule for package-level variables outside init functions (one allow-listed, lock-guarded cache)", " Also decided: outside init functions no package-level variable of the replicated packages is assigned, incremented, written through an index or field, or handed out by address."),
+}
+for _k, _v in ADDENDA10.items():
+    if _k in ADDENDA:
+        ADDENDA[_k] = (ADDENDA[_k][0] + _v[0], ADDENDA[_k][1] + _v[1])
+    else:
+        ADDENDA[_k] = _v
+
+
 def main():
     checks = []
     na = []
